@@ -105,6 +105,9 @@ func TestVerif_C16_ApiTokenSequences(t *testing.T) {
 			if k%3 == 0 {
 				v["includeSubgroups"] = true
 			}
+			if k%5 == 2 {
+				delete(v, "expires") // accepted by the API: a token that is listed and never honoured
+			}
 			b, _ := json.Marshal(v)
 			return b, c16Tok{"", perms, user}
 		}
